@@ -78,6 +78,23 @@ def hasNTKV : List (Val × Val) → Bool
   | (k, v) :: kvs => k.hasNT || v.hasNT || hasNTKV kvs
 end
 
+mutual
+/-- the value contains a one-shot iterator (region `iteratorItemsUnchecked`: its pending items are deliberately not looked at) -/
+def Val.hasIter : Val → Bool
+  | .coll _ xs => hasIterL xs
+  | .tup _ xs => hasIterL xs
+  | .ntup _ _ xs => hasIterL xs
+  | .iterator _ _ => true
+  | .mapping _ kvs => hasIterKV kvs
+  | _ => false
+def hasIterL : List Val → Bool
+  | [] => false
+  | x :: xs => x.hasIter || hasIterL xs
+def hasIterKV : List (Val × Val) → Bool
+  | [] => false
+  | (k, v) :: kvs => k.hasIter || v.hasIter || hasIterKV kvs
+end
+
 /-- syntactic regions of the annotation -/
 def Ann.hasEmptyTuple : Ann → Bool
   | .tuple _ [] => true
@@ -131,5 +148,33 @@ def Ann.hasUnresolvedFwd (env : Env) : Ann → Bool
 where anyL (env : Env) : List Ann → Bool
   | [] => false
   | a :: as => a.hasUnresolvedFwd env || anyL env as
+
+/-- no unsupported annotation object (oracle-answered node) at a position the checker evaluates -/
+def Ann.noSpecial : Ann → Bool
+  | .special _ => false
+  | .union _ ms => noSpecialL ms
+  | .seq _ _ a => a.noSpecial
+  | .map _ _ k v => k.noSpecial && v.noSpecial
+  | .tuple _ items => noSpecialL items
+  | .tupleVar _ a => a.noSpecial
+  | _ => true
+where noSpecialL : List Ann → Bool
+  | [] => true
+  | a :: as => a.noSpecial && noSpecialL as
+
+
+/-- **Local guard for a top-level string annotation whose name is NOT a class of the context.**  Such a name is compared with the
+    class names of the value's MRO, so the guard says that no class in the MRO of *this value* carries the name of *this annotation*.
+    It speaks about one annotation and one value and is `true` by definition for every annotation that is not such a string (a
+    string annotation that names a class of the context needs no guard either: it is checked with isinstance against that class).
+    The complement is outside the vocabulary of C01 ("forward references naming a class"); witness `strAnn_unbound_name_accepted`.
+    The driver evaluates the guard on every case (`underC01`). -/
+def Ann.strAnnOk (env : Env) (a : Ann) (v : Val) : Bool :=
+  match a with
+  | .strAnn n => (env.ctx n).isSome || !(env.mroNames (v.typeOf env)).contains n
+  | _ => true
+
+/-- all hypotheses of C01 `sound_partial` about one case (the class table is well-formed by construction of the harness) -/
+def underSound (env : Env) (a : Ann) (v : Val) : Bool := a.strAnnOk env v && a.noSpecial && v.wf env && v.plain
 
 end PedVerif.Checker
